@@ -168,7 +168,11 @@ let process_t (c : tcase) =
   end;
   if not (eq_d rd md) then begin
     incr n_diffs;
-    Printf.printf "DIFF class=%s id=%s family=%s text=%s impl=%s model=%s\n" (cls "DEVS") c.id c.family c.text_hex (enc_d rd) (enc_d md)
+    (* C16 is about keyboards: a --dev-file listing that agrees with the model on every keyboard and differs in which
+       NON-keyboard devices it carries along is a class of its own *)
+    let kb (r : idev list res) = (match r with Ok l -> Ok (List.filter is_kbd l) | Panic s -> Panic s) in
+    let only_nonkbd = eq_d (as_perm_of beq_idev (kb rd) (kb md)) (kb md) in
+    Printf.printf "DIFF class=%s id=%s family=%s text=%s impl=%s model=%s\n" (if only_nonkbd then "DEVS_NONKEYBOARD" else cls "DEVS") c.id c.family c.text_hex (enc_d rd) (enc_d md)
   end;
   (* the harness's decomposition into entries must be the model's *)
   let (pre, es) = split_entries (split_lines text) in
